@@ -283,10 +283,16 @@ func (e *c37env) c37check(session, alpha, beta *synchronization.Configuration) (
 	// Merge clause, checked for every triple (MergeConfigurations is total).
 	mergedBy := map[string]*synchronization.Configuration{}
 	endpointBy := map[string]*synchronization.Configuration{"alpha": alpha, "beta": beta}
+	// Both merges are performed first and judged afterwards, as the controller
+	// uses them: a merge must not disturb an earlier result or its inputs.
+	wantBy := map[string]*synchronization.Configuration{"alpha": refMerge(session, alpha), "beta": refMerge(session, beta)}
+	gotBy := map[string]*synchronization.Configuration{}
+	for _, side := range []string{"alpha", "beta"} {
+		gotBy[side] = synchronization.MergeConfigurations(session, endpointBy[side])
+	}
 	for _, side := range []string{"alpha", "beta"} {
 		ep := endpointBy[side]
-		got := synchronization.MergeConfigurations(session, ep)
-		want := refMerge(session, ep)
+		got, want := gotBy[side], wantBy[side]
 		if !proto.Equal(got, want) {
 			return fmt.Sprintf("MergeConfigurations(session, %s) = {%s}, field-wise override / ordered concatenation gives {%s}", side, cfgText(got), cfgText(want)),
 				fmt.Sprintf("merge session={%s} endpoint={%s}", cfgText(session), cfgText(ep)), "merge-differs", false
@@ -381,8 +387,8 @@ func TestC37(t *testing.T) {
 	if raw := vr.ReplayCase(); raw != nil {
 		var c c37case
 		json.Unmarshal(raw, &c)
-		if c.Group == "text" {
-			t.Logf("replay of text case %s: see TestC37 text leg (deterministic, re-run the check)", c.Text)
+		if c.Group == "text" || c.Group == "purity" {
+			t.Logf("replay of %s case %s: deterministic leg without per-case replay, re-run the check", c.Group, c.Text)
 			return
 		}
 		what, key, class, acc := e.c37check(cfgParse(c.SessionWire), cfgParse(c.AlphaWire), cfgParse(c.BetaWire))
@@ -394,7 +400,7 @@ func TestC37(t *testing.T) {
 		return
 	}
 
-	r.Rule("three groups of (session, alpha, beta) configuration triples through the real CreationSpecification validation, MergeConfigurations, Configuration.EnsureValid(false) and real local + remote (in-memory stream, real server) endpoint initialization: 'perm' = full product of session permissions mode {default,portable,manual,undeclared} x default file mode {0,0644,0755,01644,0111} on session, alpha and beta x endpoint permissions mode {default,manual} x default directory mode {0,0755,040755} on session and alpha x owner {'',id:0,id:x} on session and alpha x group on beta (thorough: more modes, a second owner, endpoint permissions mode portable); 'field' = for every Configuration field (from the message descriptor) the cube of its domain (every declared enum value + one undeclared; small scalars; lists) on session x alpha x beta; 'pair' = every ordered pair of fields, one on the session and one on alpha, all domain values; 'text' = every declared non-default value of every configuration enumeration and every permission mode 0..0777 written as text and read back. Non-trivial = creation accepted the triple (so the effective configurations were judged), or a text value was written; distinct by the triple / value")
+	r.Rule("three groups of (session, alpha, beta) configuration triples through the real CreationSpecification validation, MergeConfigurations, Configuration.EnsureValid(false) and real local + remote (in-memory stream, real server) endpoint initialization: 'perm' = full product of session permissions mode {default,portable,manual,undeclared} x default file mode {0,0644,0755,01644,0111} on session, alpha and beta x endpoint permissions mode {default,manual} x default directory mode {0,0755,040755} on session and alpha x owner {'',id:0,id:x} on session and alpha x group on beta (thorough: more modes, a second owner, endpoint permissions mode portable); 'field' = for every Configuration field (from the message descriptor) the cube of its domain (every declared enum value + one undeclared; small scalars; lists) on session x alpha x beta; 'pair' = every ordered pair of fields, one on the session and one on alpha, all domain values; 'purity' = for each list field, the session list of 0..5 entries built as a literal / appended into a slice with spare capacity 1 or 4 / decoded from the wire, merged with alpha (0..2 entries) and beta (0..3 entries) in both orders and only then both results and all inputs compared with the reference and pristine copies; 'text' = every declared non-default value of every configuration enumeration and every permission mode 0..0777 written as text and read back. Non-trivial = creation accepted the triple (so the effective configurations were judged), or a text value was written; distinct by the triple / value")
 	r.Assume("owner/group by name and Windows SIDs are not enumerated (their acceptance at endpoint initialization depends on the host's user database / platform)",
 		"syntactically invalid ignore patterns are not enumerated: the code documents that ignores can only be validated at endpoint initialization; whether the property demands earlier rejection is doubtful and is not demanded here",
 		"session version 1 (the only one); its documented default permissions mode (portable) is asserted at start",
@@ -497,6 +503,88 @@ func TestC37(t *testing.T) {
 			for _, sv := range fieldDomain(fields.Get(i)) {
 				for _, av := range fieldDomain(fields.Get(j)) {
 					run("pair", withField(fields.Get(i), sv), withField(fields.Get(j), av), &synchronization.Configuration{})
+				}
+			}
+		}
+	}
+	// Group "purity": merging is a pure function of (lower, higher). The
+	// session-wide list is built the way real ones are (appended into a slice
+	// with spare capacity, or decoded from the wire), merged with alpha's and
+	// then beta's configuration (both orders), and only then both results and
+	// all three inputs are compared with pristine copies / the reference.
+	for i := 0; i < fields.Len(); i++ {
+		fd := fields.Get(i)
+		if !fd.IsList() {
+			continue
+		}
+		name := string(fd.Name())
+		items := func(tag string, n int) []string {
+			var out []string
+			for k := 0; k < n; k++ {
+				out = append(out, fmt.Sprintf("%s%d", tag, k+1))
+			}
+			return out
+		}
+		setList := func(c *synchronization.Configuration, list []string) {
+			rv := reflect.ValueOf(c).Elem().FieldByNameFunc(func(n string) bool { return strings.EqualFold(n, name) })
+			rv.Set(reflect.ValueOf(list))
+		}
+		for _, build := range []string{"literal", "spare1", "spare4", "wire"} {
+			for sn := 0; sn <= 5; sn++ {
+				for an := 0; an <= 2; an++ {
+					for bn := 0; bn <= 3; bn++ {
+						for _, order := range []string{"alpha-first", "beta-first"} {
+							build, sn, an, bn, order := build, sn, an, bn, order
+							id := fmt.Sprintf("purity field=%s build=%s session=%d alpha=%d beta=%d %s", name, build, sn, an, bn, order)
+							judge := func() string {
+								session := &synchronization.Configuration{}
+								switch build {
+								case "literal":
+									setList(session, items("s", sn))
+								case "spare1", "spare4":
+									spare := map[string]int{"spare1": 1, "spare4": 4}[build]
+									list := make([]string, 0, sn+spare)
+									list = append(list, items("s", sn)...)
+									setList(session, list)
+								case "wire":
+									tmp := &synchronization.Configuration{}
+									setList(tmp, items("s", sn))
+									session = cfgParse(cfgWire(tmp))
+								}
+								alpha, beta := &synchronization.Configuration{}, &synchronization.Configuration{}
+								setList(alpha, items("a", an))
+								setList(beta, items("b", bn))
+								ps, pa, pb := proto.Clone(session), proto.Clone(alpha), proto.Clone(beta)
+								wantA, wantB := refMerge(session, alpha), refMerge(session, beta)
+								var gotA, gotB *synchronization.Configuration
+								if order == "alpha-first" {
+									gotA = synchronization.MergeConfigurations(session, alpha)
+									gotB = synchronization.MergeConfigurations(session, beta)
+								} else {
+									gotB = synchronization.MergeConfigurations(session, beta)
+									gotA = synchronization.MergeConfigurations(session, alpha)
+								}
+								what := ""
+								switch {
+								case !proto.Equal(gotA, wantA):
+									what = fmt.Sprintf("after both merges the alpha result is {%s}, ordered concatenation gives {%s}", cfgText(gotA), cfgText(wantA))
+								case !proto.Equal(gotB, wantB):
+									what = fmt.Sprintf("after both merges the beta result is {%s}, ordered concatenation gives {%s}", cfgText(gotB), cfgText(wantB))
+								case !proto.Equal(session, ps) || !proto.Equal(alpha, pa) || !proto.Equal(beta, pb):
+									what = "merging modified one of its inputs"
+								}
+								return what
+							}
+							what := judge()
+							l.Case(id, sn > 0 && an > 0 && bn > 0)
+							if what != "" {
+								l.Outcome("merge-impure")
+								r.Violate(id, id+": "+what, c37case{Group: "purity", Text: id}, func() bool { return judge() != "" })
+							} else {
+								l.Outcome("merge-pure")
+							}
+						}
+					}
 				}
 			}
 		}
